@@ -419,22 +419,30 @@ func runC11(prop, tier string, c *kernel.Chooser, r *kernel.Recorder) *kernel.Vi
 		reclen := len(full) - sizeBeforeLast
 		limit := 4096
 		if tier == "thorough" {
-			limit = 1 << 20
+			limit = 16384
 		}
+		// every verification reads the whole log: keep offsets x log size bounded
+		logBytes := 0
+		for _, n := range s.disk.Names(s.dir) {
+			b, _ := s.disk.Content(filepath.Join(s.dir, n))
+			logBytes += len(b)
+		}
+		maxOffsets := max(40, (map[string]int{"quick": 48 << 20, "thorough": 512 << 20}[tier])/max(1, logBytes))
 		lastAppend.acked = false // the cut happens "during" that append: it is not acknowledged
 		offsets := make([]int, 0, reclen)
-		if reclen <= limit {
+		if reclen <= limit && reclen <= maxOffsets {
 			for k := 0; k < reclen; k++ {
 				offsets = append(offsets, k)
 			}
 			r.Probe("tear_enumerated")
 		} else {
-			for k := 0; k < 12; k++ {
+			for k := 0; k < 12 && k < reclen; k++ {
 				offsets = append(offsets, k, reclen-1-k)
 			}
-			for k := 0; k < 16; k++ {
+			for k := 0; k < min(maxOffsets, 200)-24; k++ {
 				offsets = append(offsets, c.Intn(reclen))
 			}
+			r.Probe("tear_sampled")
 		}
 		for _, k := range offsets {
 			d := s.disk.Clone()
